@@ -215,4 +215,23 @@ func init() {
 		{Name: "rnaredundant-letter-unpaired", File: alpha, Find: "\tRNAredundant = MustComplement(NewComplementor(\n\t\t\"-acmgrsvuwyhkdbn\",", Replace: "\tRNAredundant = MustComplement(NewComplementor(\n\t\t\"-acmgrsvuwyhkdbnt\",", Rule: "tables/alphabet", Key: "alphabet.RNAredundant/complement-closed"},
 		{Name: "benign-definitions-in-named-constants", File: alpha, Find: "\tDNA = MustComplement(NewComplementor(\n\t\t\"acgt\",\n\t\tfeat.DNA,\n\t\tMustPair(NewPairing(\"acgtnxACGTNX-\", \"tgcanxTGCANX-\")),", Replace: "\tDNA = MustComplement(NewComplementor(\n\t\tdnaLetters,\n\t\tfeat.DNA,\n\t\tdnaPairs,", More: []edit{{alpha, "const (\n\tCaseSensitive = true\n)\n", "const (\n\tCaseSensitive = true\n\tdnaLetters    = \"acgt\"\n)\n\nvar dnaPairs = MustPair(NewPairing(\"acgtnxACGTNX-\", \"tgcanxTGCANX-\"))\n"}}},
 	}
+	selftests["C01"] = append(selftests["C01"],
+		variant{Name: "benign-writer-stored-via-local", File: "io/seqio/fastq/fastq.go", Find: "\treturn &Writer{\n\t\tw: w,\n\t}", Replace: "\tdst := w\n\treturn &Writer{\n\t\tw: dst,\n\t}"},
+	)
+	selftests["C03"] = append(selftests["C03"],
+		variant{Name: "benign-bounded-preallocation", File: "io/featio/bed/bed.go", Find: "\tc := bytes.Split(f, []byte{','})\n\ta := make([]int, len(c))\n", Replace: "\tc := bytes.Split(f, []byte{','})\n\tn := mustAtoi([]byte(\"3\"), index)\n\tif n < 0 || n > len(c) {\n\t\tn = len(c)\n\t}\n\ta := make([]int, len(c), len(c)+n)\n"},
+	)
+	selftests["C11"] = append(selftests["C11"],
+		variant{Name: "benign-pool-receive-in-helper", File: "morass/morass.go", Find: "\tselect {\n\tcase m.chunk = <-m.pool:\n\tdefault:\n\t\t// No spare buffer; reuse the current one.\n\t\tm.chunk = m.chunk[:0]\n\t}\n", Replace: "\tm.chunk = m.spareOr(m.chunk[:0])\n", More: []edit{{"morass/morass.go", "func (m *Morass) setErr(err error) {", "func (m *Morass) spareOr(cur sorter) sorter {\n\tselect {\n\tcase b := <-m.pool:\n\t\treturn b\n\tdefault:\n\t\treturn cur\n\t}\n}\n\nfunc (m *Morass) setErr(err error) {"}}},
+	)
+	selftests["C14"] = append(selftests["C14"],
+		variant{Name: "benign-tick-period-via-local", File: "align/pals/filter/filter.go", Find: "\t// Ticker tracks cycling of circular list of active tubes.\n\tticker := tubeWidth\n", Replace: "\t// Ticker tracks cycling of circular list of active tubes.\n\tticker := tubeWidth\n\tperiod := f.tubeOffset\n", More: []edit{{"align/pals/filter/filter.go", "\t\t\tticker = f.tubeOffset\n", "\t\t\tticker = period\n"}}},
+	)
+	selftests["C18"] = append(selftests["C18"],
+		variant{Name: "benign-round-with-floor", File: "alphabet/letters.go", Find: "\tQ := -10 * math.Log10(p/(1-p))\n\tif Q > 0 {\n\t\tQ += 0.5\n\t} else {\n\t\tQ -= 0.5\n\t}\n\treturn Qsolexa(Q)", Replace: "\tQ := -10 * math.Log10(p/(1-p))\n\treturn Qsolexa(math.Floor(Q + 0.5))"},
+	)
+	selftests["C19"] = append(selftests["C19"],
+		variant{Name: "benign-deferred-broadcast", File: "concurrent/promise.go", Find: "func (p *Promise) fail(value interface{}, err error) (f bool) {\n\tr, _ := p.messageState()\n", Replace: "func (p *Promise) fail(value interface{}, err error) (f bool) {\n\tdefer p.set.Broadcast()\n\tr, _ := p.messageState()\n", More: []edit{{"concurrent/promise.go", "\tp.message <- r\n\tp.set.Broadcast()\n\n\treturn\n}\n\n// Recover a failed promise", "\tp.message <- r\n\n\treturn\n}\n\n// Recover a failed promise"}}},
+		variant{Name: "benign-map-closes-queue-in-feeder", File: "concurrent/map.go", Find: "\tgo func() {\n\t\tfor s := 0; s*chunkSize < set.Len(); s++ {", Replace: "\tgo func() {\n\t\tdefer close(queue)\n\t\tfor s := 0; s*chunkSize < set.Len(); s++ {"},
+	)
 }
